@@ -264,7 +264,7 @@ def build(tier, rng):
     g_vf = Fan("verify-outcome-class", "GenericHandler.verify", "same mutants: verify(original password, mutant) answers a bool or raises a ValueError/TypeError subclass; mutants whose parsed cost exceeds the cap are parsed only")
     g_nu = Fan("needs_update-outcome-class", "GenericHandler.needs_update", "same mutants: needs_update(mutant) answers a bool or raises a ValueError/TypeError subclass")
     g_alt = Fan("altered-never-verifies", "GenericHandler.verify (consteq of recomputed digest)", "same mutants: one that verifies the original password parses to the same digest, salt, rounds, ident (documented aliases 2a/2b/2y, P/H) and other settings as the original")
-    g_ctx = Fan("context-outcome-class", "CryptContext.identify_record", "a CryptContext holding every available scheme x the same mutants x str and bytes: identify -> name/None without raising; verify / needs_update / verify_and_update answer or raise ValueError/TypeError (UnknownHashError); a mutant accepted by the context decodes to the same bits under the scheme the context picked")
+    g_ctx = Fan("context-outcome-class", "CryptContext.identify_record", "a CryptContext holding every available scheme (70 on this host) x the same mutants (positional ones thinned: quick every 7th; thorough all for the base hash, every 5th for the other shapes; structural ones all) x str and bytes: identify -> name/None without raising; verify / needs_update / verify_and_update answer or raise ValueError/TypeError (UnknownHashError); a mutant accepted by the context decodes to the same bits under the scheme the context picked")
     g_arb = Fan("arbitrary-strings", "GenericHandler.identify/verify/needs_update", "~200 arbitrary strings (bare idents and prefixes, separators only, hex/h64 noise, NUL, non-ASCII, 1000 chars) x every hasher and the context x str and bytes: same outcome classes; none verifies the password (plaintext family excepted by equality)")
 
     # ---- context with every scheme that can be configured together -----------------------------------
@@ -514,7 +514,7 @@ def build(tier, rng):
             k = 0
             nctx = 0
             # thinning moduli are coprime to the alphabet size (12) so that no symbol is skipped systematically
-            ctx_every = 7 if tier == "quick" else 1
+            ctx_every = 7 if tier == "quick" else (1 if idx == 0 else 5)
             nb = 0
             for kind, m in mutants(s, tier):
                 if m in seen or m == s:
